@@ -139,3 +139,32 @@ def gen_bigsketch(rng, kind, i):
         lines.append("S")
     lines.append("T")
     return (f"{kind[0]}{i}_bigsketch{n}", lines)
+
+
+def gen_burst(rng, i):
+    """Single-thread bursts of N >> write-queue-size operations without sync(), in both
+    housekeeping regimes (within / beyond the periodic-sync interval of the clock)."""
+    cfg = gen_cfg(rng, "sync", "burst")
+    cfg["ttl"] = rng.choice(["none", 10 * SEC])
+    cfg["tti"] = rng.choice(["none", 10 * SEC])
+    n = rng.choice([400, 700, 1100])
+    nkeys = rng.choice([3, 50, 2000])
+    lines = [cfg_line(cfg)]
+    beyond = rng.random() < 0.7
+    if beyond:
+        lines.append(f"D {rng.choice([500_000_001, 2 * SEC])}")
+    for j in range(n):
+        k = rng.randrange(nkeys)
+        r = rng.random()
+        if r < 0.6:
+            lines.append(f"I {k} {gen_value(rng, cfg)}")
+        elif r < 0.85:
+            lines.append(f"G {k}")
+        elif r < 0.95:
+            lines.append(f"X {k}")
+        else:
+            lines.append(rng.choice(["A", "T", f"C {k}"]))
+        if beyond and rng.random() < 0.01:
+            lines.append(f"D {rng.choice([1, 600_000_000])}")
+    lines += ["S", "T"]
+    return (f"s{i}_burst{n}", lines)
